@@ -1,11 +1,46 @@
 PROPERTY = "C01"
 LEVEL = "proof"
-FUNCTIONS = ["sqfs_meta_writer_write_inode", "write_block_sizes", "write_dir_index",
-             "sqfs_meta_reader_read_inode", "read_inode_file", "read_inode_file_ext",
-             "read_inode_slink", "read_inode_slink_ext", "read_inode_dir_ext", "set_mode"]
-TRUSTED = []
-ASSUMPTIONS = []
-EXPLANATION = ""
+FUNCTIONS = [
+    "sqfs_meta_writer_write_inode", "write_block_sizes", "write_dir_index",
+    "sqfs_meta_reader_read_inode", "read_inode_file", "read_inode_file_ext", "read_inode_slink",
+    "read_inode_slink_ext", "read_inode_dir_ext", "set_mode",
+    "sqfs_id_table_id_to_index",
+    "handle_line", "add_generic", "add_device", "add_file",
+    "mknode", "clamp_timestamp", "insert_sorted",
+    "serialize_tree_node", "tree_node_to_inode", "sqfs_inode_make_extended", "sqfs_inode_make_basic",
+    "sqfs_inode_set_xattr_index", "sqfs_inode_get_xattr_index", "sqfs_inode_set_file_block_start",
+    "sqfs_dir_writer_create_inode", "sqfs_dir_writer_begin", "sqfs_dir_writer_add_entry",
+    "sqfs_dir_writer_end", "add_header", "get_conseq_entry_count",
+    "sqfs_readdir_state_init", "sqfs_meta_reader_readdir", "sqfs_meta_reader_read_dir_header",
+    "sqfs_meta_reader_read_dir_ent",
+    "sqfs_meta_write_write_to_file", "write_block",
+    "deduplicate_blocks", "process_completed_block", "set_block_size",
+    "sqfs_super_write", "sqfs_super_read",
+    "to_base32", "from_base32", "sqfs_get_xattr_prefix", "sqfs_get_xattr_prefix_id",
+]
+TRUSTED = [
+    "metadata writer/reader as ONE append-buffer contract (harness/C01/c01_meta.h): the reader returns exactly the bytes the writer appended, in order; seek inside the stretch moves the cursor. That the real pair implements this over compressed 8 KiB blocks is C03.meta.* / C05.meta.* / C10.meta.*",
+    "malloc/calloc/alloc_flex/alloc_array: fresh object of the requested size, never fail here (allocation failure is C13's subject) - harness/C01/c01_alloc.h",
+    "sqfs_file_t get_size/write_at/read_at ghost-size contract (meta_write_to_file, super_roundtrip)",
+    "parse_uint / parse_uint_oct / canonicalize_name / split_line_remove_front / makedev contracts in packfile_kinds.c (each is verified elsewhere: C07, C18)",
+    "sqfs_id_table_id_to_index, sqfs_meta_writer_get_position, sqfs_meta_writer_write_inode, directory writer contracts inside node_to_inode.c (each verified in its own harness here)",
+    "block writer write_data_block / sqfs_frag_table_set recording contracts in blocks_sizes.c; comparer / truncate contracts of harness/C08/blk_dedup.c",
+    "ghost strlen for strings the harness built (dirent_roundtrip.c)",
+]
+ASSUMPTIONS = [
+    "end-to-end equality of the read-back tree with the input tree is NOT a machine-checked theorem: what is checked is that every encode/decode pair on the path is inverse and that unrepresentable inputs are refused; the composition is an argument in prose",
+    "C01.table.roundtrip and C01.frag.location are the composition of C03.write_table / C03.frag_write (locations recorded = where each chunk went, proved with loop contracts) with C05/C10 read_table / frag_lookup; not repeated here",
+    "C01.bp.append_safe (append for every (size, current block) state incl. size 0) is C13.append.no_crash / accounts_all_bytes in harness/C13/bp_append.c; not repeated here",
+    "payload shapes are concrete and bounded: file inodes <= 2 block words, symlink targets <= 12 bytes, directory index <= 2 entries, directory listings <= 2 entries with names <= 2 bytes, xattr values <= 4 bytes, pack file path 3 bytes, block history <= 4 blocks; all field values symbolic",
+    "wf_inode (precondition of the inode round trip): type bits of mode = inode type, payload_bytes_used = what the type fields announce; established by the inode constructors (C03.inode_kind / C03.dir.inode_kind)",
+    "directory entries: inode reference block < 2^32 (the 32 bit start_block field of the directory header); a larger inode table is not representable and not refused by sqfs_dir_writer_add_entry - outside the claim",
+    "compressor correctness, option parsing, glob matching, directory scanning are not covered",
+]
+EXPLANATION = ("each encode/decode pair of the packing path is verified as an inverse pair over a shared capture buffer "
+               "(inode write/read for all 14 types, directory listing write/readdir, super block write/read, xattr value "
+               "hex coding and key prefixes), field transport functions (pack file line -> entry -> tree node -> inode, "
+               "completed block -> size word / block start) are verified against the property text, and values the "
+               "on-disk fields cannot hold must be refused")
 
 _INO = {1: "dir", 2: "file", 3: "slink", 4: "bdev", 5: "cdev", 6: "fifo", 7: "socket",
         8: "dir_ext", 9: "file_ext", 10: "slink_ext", 11: "bdev_ext", 12: "cdev_ext",
@@ -76,4 +111,16 @@ HARNESSES = [
          timeout=300, unwind=6, nochecks=["--conversion-check"],
          include_dirs=["lib/sqfs/src/block_processor"],
          fp={"write_data_block": "stub_write_data_block", "*": None}),
+    dict(name="super_roundtrip", file="super_roundtrip.c", label="proved", timeout=300, unwind=22,
+         fp={"write_at": "stub_write_at", "read_at": "stub_read_at"}),
+    dict(name="dirent_roundtrip", file="dirent_roundtrip.c", label="bounded(entries<=2,name<=2)",
+         timeout=300, unwind=4, unwindset=["c01_raw_alloc.0:10"], nochecks=["--conversion-check"],
+         fp={"destroy": None, "copy": None, "*": None},
+         cases=[dict(id="n%d" % n, defines={"N": n}, tier="quick") for n in (0, 1)] +
+               [dict(id="n2", defines={"N": 2}, tier="thorough", timeout=1500)]),
+    dict(name="xattr_kv", file="xattr_kv.c", label="bounded(value<=4 bytes)", timeout=300, unwind=19,
+         nochecks=["--conversion-check"], include_dirs=["lib/sqfs/src/xattr"],
+         fp={"*": None},
+         cases=[dict(id="size%d" % n, defines={"SIZE": n}, tier="quick" if n in (0, 1, 3) else "thorough")
+                for n in range(5)]),
 ]
